@@ -143,8 +143,9 @@ def hash_mutable(obj) -> int:
             # try hashing the data buffer
             return hash(sha1(obj, usedforsecurity=False))
         except (ValueError, TypeError):
-            # otherwise, hash the internal dict
-            return hash_mutable(obj.__dict__)
+            # otherwise, hash the internal dict together with the class, so that objects
+            # of different classes with identical attributes are distinguished
+            return hash((obj.__class__.__name__, hash_mutable(obj.__dict__)))
 
 
 def hash_readable(obj) -> str:
